@@ -725,6 +725,17 @@ impl<P: Pid> Ep<P> {
                 }
                 rules.label("c05.stim-bad-length");
             }
+            // C14 inbound, on the bytes that really arrived: a frame larger than the announced maximum is not
+            // delivered - however its Remaining Length is encoded
+            if let (Some(Some((f, _))), Some(Ver::V5), Some(l)) = (frames.get(k), pre_m.ver, pre_m.link.own_mps) {
+                let ty = f[0] >> 4;
+                if f.len() as u64 > l as u64 && ty != 1 && ty != 2 && pre_m.st == St::Connected {
+                    rules.label("c14.inbound-oversize-raw");
+                    if !c.recvs().is_empty() {
+                        rules.viol("c14.oversize-delivered", &pre_m, format!("a frame of {} bytes on the wire exceeds the announced Maximum Packet Size {} but was delivered: stimulus {label}: {}", f.len(), l, c.describe()));
+                    }
+                }
+            }
             crate::rules::close_order_pub(&pre_m, &c, &mut rules);
             // C17: receive gating by role / reserved types / nothing but CONNECT before the version is known
             if let Some(Some((f, _))) = frames.get(k) {
